@@ -161,6 +161,59 @@ def rt_scenario(ctx, j):
             osci._send = saved_send
 
 
+def rt_midtask_scenario(ctx, j):
+    """a bundle sent from the main thread WHILE the clock thread is in the middle of a task: it is still stamped
+    now + latency (never with the logical time the running task was scheduled for)"""
+    sim = cosim.Sim(ctx, jitter=True, max_events=14)
+    rec = {'mode': 'rt', 'job': dict(j)}
+
+    def data(sub):
+        return {'key': f'c07:rt-midtask:{sub}', 'replay': dict(rec, sub=sub)}
+    with sim as s, osc_shims():
+        from sc3.base import netaddr as nad
+        w, clk, main = s.world, s.clk, s.m
+        rec['trace'] = w.trace
+        captured = []
+        osci = main._osc_interface
+        saved_send = osci._send
+        osci._send = lambda msg, target: captured.append((bytes(msg.dgram), w.now))
+        offset = clk.SystemClock._elapsed_osc_offset
+        try:
+            L = ctx.real('L', 0, 1000)
+            d0 = ctx.real('d0', 0, 1000)
+            ctx.assume(w.now.e <= 1000000)
+            addr = nad.NetAddr('127.0.0.1', 57110)
+            info = {}
+
+            def busy():
+                info['in-task'] = True
+                w.midtask()              # the task takes time; other threads may run meanwhile
+                info['in-task'] = False
+
+            def sched(world):
+                clk.SystemClock.sched(d0, busy)
+            s.foreign('sched busy task', sched)
+
+            def send(world):
+                info['sent-mid-task'] = bool(info.get('in-task'))
+                info['now'] = world.now
+                addr.send_bundle(L, ['/a', 1])
+            s.foreign('send from the main thread', send)
+            s.run(clk.SystemClock)
+            if w.truncated or 'now' not in info:
+                raise PathAbort('not reached')
+            if len(captured) != 1:
+                raise Violation(f'{len(captured)} datagrams for one send', None, data('count'))
+            tree = oscref.decode(captured[0][0])
+            ctx.prove(tt_term(tree[1]) == expected_tt(R(info['now']) + R(L), offset),
+                      'a bundle sent from the main thread ' + ('while a task was running on the clock thread '
+                      if info['sent-mid-task'] else '') + 'is not stamped now + latency', data('timetag'))
+            ctx.note('rt:midtask' + (':during' if info['sent-mid-task'] else ':between'))
+            return {'job': j, 'during': info['sent-mid-task']}
+        finally:
+            osci._send = saved_send
+
+
 def law_roundtrip(ctx):
     """incoming conversion: osc_to_elapsed_time(elapsed_time_to_osc(x)) within 2^-32 of x"""
     from sc3.base import clock as clk
@@ -354,6 +407,8 @@ def main_end_time(j, d):
 def job(j):
     if j.get('law') == 'roundtrip':
         h = law_roundtrip
+    elif j.get('midtask'):
+        h = lambda c: rt_midtask_scenario(c, j)      # noqa
     elif j['mode'] == 'rt':
         h = lambda c: rt_scenario(c, j)      # noqa
     elif j.get('reuse'):
@@ -380,11 +435,53 @@ def replay(rec):
         x = g('x', 1.5)
         y = clk.SystemClock.osc_to_elapsed_time(clk.SystemClock.elapsed_time_to_osc(x))
         return None if 0 <= x - y < 2 ** -31 else f'round trip of {x} gives {y}'
+    if j.get('midtask'):
+        return _replay_midtask(j, g)
     if j.get('reuse'):
         return _replay_reuse(j, g)
     if j['mode'] == 'nrt':
         return _replay_nrt(j, g)
     return _replay_rt(j, g)
+
+
+def _replay_midtask(j, g):
+    """real threads: a task that takes 0.5 s runs on the SystemClock thread; the main thread sends in the middle"""
+    import time
+    from sc3.base import main as _m, clock as clk, netaddr as nad
+    main = _m.main
+    osci = main._osc_interface
+    captured = []
+    saved = osci._send
+    osci._send = lambda msg, target: captured.append(bytes(msg.dgram))
+    try:
+        addr = nad.NetAddr('127.0.0.1', 57110)
+        L = min(g('L', 0.25), 5.0)
+        started = []
+
+        def busy():
+            started.append(main.elapsed_time())
+            time.sleep(0.5)
+        clk.SystemClock.sched(0.2, busy)
+        t0 = time.time()
+        while not started and time.time() - t0 < 3:
+            time.sleep(0.005)
+        time.sleep(0.2)                      # now the clock thread is in the middle of the task
+        now = main.elapsed_time()
+        addr.send_bundle(L, ['/a', 1])
+        after = main.elapsed_time()
+        time.sleep(0.6)
+    finally:
+        osci._send = saved
+    if len(captured) != 1:
+        return f'{len(captured)} datagrams for one send'
+    tree = oscref.decode(captured[0])
+    stamped = clk.SystemClock.osc_to_elapsed_time(tree[1]) - L
+    # the send may legitimately wait for the task to finish (it needs the lock): any instant between the call and its
+    # return is "now"; the scheduled time of the running task is not
+    if not (now - 0.02 <= stamped <= after + 0.02):
+        return f'bundle sent from the main thread at {now:.3f}..{after:.3f} s (while a task scheduled for ' \
+               f'{started[0]:.3f} s was running) is stamped {stamped:.3f} s + latency'
+    return None
 
 
 def _replay_reuse(j, g):
@@ -576,13 +673,14 @@ def main(tier, seed):
                 nrt.append(dict(mode='nrt', sends=list(sends), lats=list(lats), msg=0))
             nrt.append(dict(mode='nrt', sends=list(sends), lats=['pos'] * n, msg=1))
     nrt += [dict(mode='nrt', reuse=1, depth=1), dict(mode='nrt', reuse=1, depth=2)]
+    rt.append(dict(mode='rt', midtask=1))
     for r in run_jobs('vf.props.c07', 'job', rt, 'rt'):
         chk.add('rt', r)
     for r in run_jobs('vf.props.c07', 'job', nrt, 'nrt'):
         chk.add('nrt', r)
     chk.require_notes('rt', ['roundtrip', 'nested-refused', 'rt:bundle:routine:pos', 'rt:bundle:outside:pos',
                              'rt:completion:routine:pos', 'rt:nested:routine:pos', 'rt:bundle:routine:none',
-                             'rt:bundle:routine:neg', 'rt:msg:routine:pos'])
+                             'rt:bundle:routine:neg', 'rt:msg:routine:pos', 'rt:midtask:between'])
     chk.require_notes('nrt', ['nrt', 'nrt-reuse'])
     chk.bounds = {'rt': 'one send (bundle, nested bundle, message, message with completion-bundle blob) with symbolic '
                         'latencies from a routine step under arbitrary jitter or from the main thread',
